@@ -64,6 +64,9 @@ pub struct Scenario {
     pub detached: bool,
     pub clients: Vec<ClientSpec>,
     pub server_workers: u8,
+    /// build the server with HttpServerStarter::new / new_with_tls instead of ServerBuilder
+    #[serde(default)]
+    pub legacy_starter: bool,
 }
 
 fn client_spec() -> impl Strategy<Value = ClientSpec> {
@@ -109,13 +112,13 @@ fn client_spec() -> impl Strategy<Value = ClientSpec> {
 }
 
 pub fn scenario(max_clients: usize) -> impl Strategy<Value = Scenario> {
-    (prop::bool::weighted(0.25), any::<bool>(), proptest::collection::vec(client_spec(), 1..=max_clients), 1u8..5).prop_map(|(tls, detached, mut clients, server_workers)| {
+    (prop::bool::weighted(0.25), any::<bool>(), proptest::collection::vec(client_spec(), 1..=max_clients), 1u8..5, prop::bool::weighted(0.2)).prop_map(|(tls, detached, mut clients, server_workers, legacy_starter)| {
         if tls {
             for c in clients.iter_mut() {
                 c.proto = Proto::H1;
             }
         }
-        Scenario { tls, detached, clients, server_workers }
+        Scenario { tls, detached, clients, server_workers, legacy_starter }
     })
 }
 
@@ -303,7 +306,9 @@ pub fn check_scenario(rt: &tokio::runtime::Runtime, s: &Scenario, st: &mut Stats
             default_request_body_max_bytes: 1 << 20,
             ..Default::default()
         };
-        if s.tls {
+        if s.legacy_starter {
+            crate::dynapi::start_server_legacy(life_api(), LifeCtx::default(), cfg, s.tls).map_err(|e| Failure::new("server-start", e))?
+        } else if s.tls {
             crate::dynapi::start_server_tls(life_api(), LifeCtx::default(), cfg).map_err(|e| Failure::new("server-start", e))?
         } else {
             start_server(life_api(), LifeCtx::default(), cfg, None).map_err(|e| Failure::new("server-start", e))?
@@ -313,7 +318,7 @@ pub fn check_scenario(rt: &tokio::runtime::Runtime, s: &Scenario, st: &mut Stats
     let tls = s.tls;
     let log = server.app_private().log.clone();
     let mode = if s.detached { "detached" } else { "cancel-on-disconnect" };
-    let desc = format!("{}mode {} clients {:?}", if s.tls { "https " } else { "" }, mode, s.clients.iter().map(|c| format!("{:?}/{:?}/{:?}{}{}", c.kind, c.proto, c.point, if c.rst { "/rst" } else { "" }, if c.drop_ctx { "/dropctx" } else { "" })).collect::<Vec<_>>());
+    let desc = format!("{}{}mode {} clients {:?}", if s.legacy_starter { "[HttpServerStarter::new] " } else { "" }, if s.tls { "https " } else { "" }, mode, s.clients.iter().map(|c| format!("{:?}/{:?}/{:?}{}{}", c.kind, c.proto, c.point, if c.rst { "/rst" } else { "" }, if c.drop_ctx { "/dropctx" } else { "" })).collect::<Vec<_>>());
     let result: Result<(), Failure> = rt.block_on(async {
         // stayers are released a little after everybody has done their part
         let mut handles = vec![];
